@@ -16,6 +16,7 @@ mod engine_b;
 mod engine_c;
 #[cfg(feature = "fc-std")]
 mod engine_t;
+mod engine_z;
 mod model;
 mod world;
 
@@ -53,14 +54,16 @@ fn engines_for(prop: &str) -> Vec<(&'static str, u32)> {
     let alloc = cfg!(feature = "fc-alloc");
     let mut v: Vec<(&'static str, u32)> = match prop {
         "C01" | "C03" => vec![("A", 6), ("B", 2), ("C", 2)],
-        "C02" => vec![("A", 6), ("B", 2), ("C", 2)],
+        "C02" => vec![("A", 60), ("B", 20), ("C", 20), ("Z", 2)],
         "C20" | "C16" => vec![("A", 7), ("B", 3)],
-        "C11" | "C12" => vec![("B", 1)],
-        "C13" | "C14" | "C15" => vec![("C", 1)],
+        "C11" | "C12" => vec![("B", 50), ("Z", 1)],
+        "C13" | "C14" => vec![("C", 1)],
+        "C15" => vec![("C", 50), ("Z", 1)],
+        "C04" | "C05" | "C06" | "C07" | "C08" | "C09" | "C10" => vec![("A", 50), ("Z", 1)],
         _ => vec![("A", 1)],
     };
     if !alloc {
-        v.retain(|(e, _)| *e == "A");
+        v.retain(|(e, _)| *e == "A" || *e == "Z");
     }
     v
 }
@@ -150,6 +153,7 @@ fn run_one(engine: &str, prop: &str, thorough: bool, case_seed: u64, sub: u64) -
         "C" => engine_c::run(prop, thorough, case_seed, sub),
         #[cfg(feature = "fc-std")]
         "T" => engine_t::run(prop, thorough, case_seed),
+        "Z" => engine_z::run(prop, case_seed),
         e => panic!("engine {e} not available in configuration {}", config_name()),
     }
 }
@@ -213,7 +217,7 @@ fn cmd_run(args: &[String]) {
     let iters: u64 = arg(args, "--iters").unwrap_or("1000").parse().expect("iters");
     let out = arg(args, "--out");
     let engines: Vec<(&str, u32)> = match arg(args, "--engines") {
-        Some(e) => ["A", "B", "C", "T"].into_iter().filter(|n| e.split(',').any(|x| x == *n)).map(|n| (n, 1)).collect(),
+        Some(e) => ["A", "B", "C", "T", "Z"].into_iter().filter(|n| e.split(',').any(|x| x == *n)).map(|n| (n, 1)).collect(),
         None => engines_for(prop),
     };
     let breadcrumb = arg(args, "--breadcrumb");
